@@ -1,13 +1,33 @@
 import Wayfind.Proofs.FindDelete
+import Wayfind.Proofs.Registry10
 
 /-! # C09 — delete removes exactly the named route
 Deleting a key from the tree (with pruning of empty nodes and merging of compressible ones) removes exactly that key
 from the finite map and returns what `find` finds for it.
-Status: **partial** — tree layer; the Router-level outcome rules (ok / mismatch / not-found, returned data through the
-reference counts) need the registry invariant. -/
+Status: proved on live templates, including the returned data through the reference counts of shared values, for
+histories whose inserted templates have pairwise different expansions (see C01); the duplicate-expansion family and
+clones are tied by the `dup`, `family` and `clonescope` suites. -/
 
 theorem C09_find_after_delete (n : Node) (mark : Bool) (P Q : List Part) (hS : Node.Shp n)
     (hP : wfParts P = true) (hQ : wfParts Q = true) :
     Node.find (Node.delete mark n P).1 Q = (if Q = P then none else Node.find n Q) ∧
     (Node.delete mark n P).2 = Node.find n P :=
   Node.find_delete n mark P Q hS hP hQ
+
+/-- **On live templates.** `delete(t)` of a template that is, character for character, live returns the data given at
+insertion and leaves exactly the other live templates … -/
+theorem C09_delete_live_template (r : Router) (L : List LiveT) (h : Live r L) (lt : LiveT) (hlt : lt ∈ L) :
+    (r.delete lt.template).1 = .ok lt.data ∧
+    Live (r.delete lt.template).2 (L.filter (fun x => x.template != lt.template)) :=
+  delete_live_api h lt hlt
+
+/-- … and if `t` is not live the call changes nothing and reports a template error, a mismatch naming a live template
+one of whose routes coincides with an expansion of `t`, or not-found when no expansion of `t` is a live route. -/
+theorem C09_delete_not_live (r : Router) (L : List LiveT) (h : Live r L) (t : Bytes) (hnl : ∀ lt ∈ L, lt.template ≠ t) :
+    (r.delete t).2 = r ∧
+    ((∃ e, (r.delete t).1 = .error (.template e) ∧ parseTemplates t = .error e) ∨
+     (∃ ins ts, (r.delete t).1 = .error (.mismatch t ins) ∧ parseTemplates t = .ok ts ∧
+        ∃ lt ∈ L, lt.template = ins ∧ ∃ e ∈ lt.exps, ∃ e' ∈ ts, e.2 = e'.2) ∨
+     (∃ ts, (r.delete t).1 = .error (.notFound t) ∧ parseTemplates t = .ok ts ∧
+        ∀ lt ∈ L, ∀ e ∈ lt.exps, ∀ e' ∈ ts, e.2 ≠ e'.2)) :=
+  delete_not_live h t hnl
